@@ -81,6 +81,10 @@ def step (line : String) : String :=
     match parseCols cols with
     | some cols => readAll cols (parseDecomp tab) (unhex file)
     | none => "bad-op"
+  | ["read-fault", cols, file, tab, k] =>
+    match parseCols cols, k.toNat? with
+    | some cols, some k => readAllF cols (parseDecomp tab) (unhex file) k
+    | _, _ => "bad-op"
   | ["parse", cols, mx, file, tab] =>
     match parseCols cols, mx.toNat? with
     | some cols, some mx => showParse cols (parseFile (parseDecomp tab) cols mx (unhex file))
